@@ -42,6 +42,9 @@ Definition value_str (v : value) : string :=
   | VLit l _ _ => l
   end.
 
+(* isinstance(value, str) and value.startswith("prov:") — as repaired: strings only *)
+Definition prov_str (v : value) : bool := match v with VStr s => starts_with "prov:" s | _ => false end.
+
 Definition intl_string (d : qname) : bool := is_prov_name "InternationalizedString" d.
 
 Definition xml_emit (ft : bool) (a : qname) (v : value) : xout :=
@@ -61,7 +64,7 @@ Definition xml_emit (ft : bool) (a : qname) (v : value) : xout :=
   let always := always_of v in
   let cond := (ft || always || is_tlv a)
               && match ty0 with None => true | Some _ => false end
-              && negb (starts_with "prov:" (match v with VLit _ _ _ => "<Literal" | other => value_str other end))
+              && negb (prov_str v)
               && negb (is_qname_attr a && negb (String.eqb txt0 ""))
               && negb (is_time_or_label a) in
   let '(ty1, txt1) :=
